@@ -92,7 +92,7 @@ REGISTRY = {
         "parts": [K.cli_c06, K.san_c06],
         "rule": "series with renames / creates / deletes spread over several workers and a failing patch at a random position, threads 2/3/4/8/16, backup modes, -q/default, 10% dry-run; per workspace: one natural traced run, "
                 "then no-run-ahead, full-run-ahead, one intermediate depth and two random-delay schedules derived from the trace. Non-trivial/distinct: (workspace, thread count, realised interleaving signature = sorted run-ahead depth vector + unroll counts).",
-        "floor": floors(("parallel-runs-compared", 1000), ("runs-with-run-ahead", 100), ("schedule:no-run-ahead", 50), ("schedule:full-run-ahead", 50), ("run-ahead-file-patches-unrolled", 100)),
+        "floor": floors(("parallel-runs-compared", 1000), ("runs-with-run-ahead", 100), ("schedule:no-run-ahead", 50), ("schedule:full-run-ahead", 50), ("run-ahead-file-patches-unrolled", 100), ("rotation-shape-runs", 30), ("cleanup-race-shape:directory-shared-by-two-save-workers", 20)),
     },
     "C07": {
         "level_text": "the real FilenameDistributor is driven (hook sub-command) over every canonical sequence of pairs within the bound and random longer ones and its map is compared with an independent union-find; in real parallel pushes the hook trace must show every file loaded by one apply worker and saved by one save worker",
